@@ -45,6 +45,9 @@ type childSpec struct {
 	// CfgAttr: owner, group and mode given to the configuration file that is actually loaded (mode 0 = leave)
 	CfgUID, CfgGID int
 	CfgMode        uint32
+	// DropToUID: the program runs with this (non-root) user and group id: the harness sets the world up as root
+	// and gives up its privileges right before the program starts
+	DropToUID int
 }
 
 type journalLine struct {
@@ -221,6 +224,22 @@ func TestDaemonChild(t *testing.T) {
 			args[2] = "./fan2go.yaml"
 		case "cwd":
 			args = append([]string{"fan2go", "--no-style", "--no-color"}, spec.Args...)
+		}
+		if spec.DropToUID > 0 {
+			os.Setenv("HOME", w.Dir)
+			if err := syscall.Setgroups([]int{spec.DropToUID}); err != nil {
+				write(journalLine{Note: "harness: setgroups: " + err.Error()})
+				os.Exit(12)
+			}
+			if err := syscall.Setgid(spec.DropToUID); err != nil {
+				write(journalLine{Note: "harness: setgid: " + err.Error()})
+				os.Exit(12)
+			}
+			if err := syscall.Setuid(spec.DropToUID); err != nil {
+				write(journalLine{Note: "harness: setuid: " + err.Error()})
+				os.Exit(12)
+			}
+			write(journalLine{Note: fmt.Sprintf("running-as uid=%d euid=%d", os.Getuid(), os.Geteuid())})
 		}
 		k.Go("program", func() {
 			os.Args = args
